@@ -759,7 +759,14 @@ class Interp(Engine):
         raise Outside("symbolic ** symbolic")
 
     def bit_and(self, a, b2, st):
-        raise Outside("bitwise and with non-mask constant")
+        """x & c for a constant c with a single bit set and x >= 0:  ((x // c) % 2) * c"""
+        c, x = (b2, a) if is_concrete(b2) else (a, b2)
+        if not (isinstance(c, int) and c > 0 and c & (c - 1) == 0):
+            raise Outside("bitwise and with a constant that is neither a low mask nor a single bit")
+        xt = self.term(x, INT)
+        if not self.entails(st, xt >= 0):
+            raise Outside("bitwise and on a possibly negative value")
+        return V(((xt / c) % 2) * c, INT)
 
     # ---------------------------------------------------------------------------------------------- attribute access
 
@@ -836,7 +843,7 @@ class Interp(Engine):
         if isinstance(v, EmptyMap):
             yield st, BuiltinMethod(v, name)
             return
-        if isinstance(v, tuple) and v and v[0] in ('logger', 'opaque'):
+        if isinstance(v, tuple) and v and v[0] in ('logger', 'opaque', 'external', 'lock'):
             # logging.Logger (A-LOG) and other effect-free collaborators: any method, no effect, returns None
             yield st, BuiltinMethod(v, name)
             return
